@@ -2,12 +2,40 @@
 """Generates MANIFEST.json from the table below (kept in one place so it stays valid)."""
 import json, sys
 
+E2E_NOTE = "Trusted base: the harness's own RFC 9000 frame/header parser (world/src/wire.rs), the scripted network and application drivers; both endpoints are s2n-quic on the deterministic testing IO (virtual clock); TLS is s2n-tls with an RSA certificate (fixed-size handshake), ciphertext bytes differ between runs, behaviour does not. Debug assertions of the code are armed as extra oracles."
 CHECKS = {
  # id: (engine, technique, level text, level note, design ref)
+ "C01": ("world", "property-based testing of end-to-end scenarios (proptest scenarios x fault tapes, payload PRF oracle, shrinking)",
+   "Generated connection scenarios (configs x application scripts x per-datagram fault tapes) run on real endpoints; every byte read is compared with a keyed position-dependent PRF and clean ends with the length written. Search with shrinking; no proof of absence.",
+   E2E_NOTE, "DESIGN.md section 4 C01"),
+ "C03": ("world", "property-based testing of end-to-end scenarios with a trace invariant (sent frames vs credit received so far)",
+   "Generated scenarios with tiny windows/limits and lossy delivery of MAX_* frames; invariant evaluated at every sent packet against the credit the endpoint had processed by then.",
+   E2E_NOTE + " initial_max_data is taken from the peer's configuration.", "DESIGN.md section 4 C03"),
+ "C08": ("world", "property-based testing: packet-number codec vs RFC 9000 A.2/A.3 transcription (component) + ACK trace monitor over generated end-to-end runs",
+   "Component: millions of (pn, largest acked) triples against a literal transcription of RFC 9000 appendix A and ACK-frame construction against a reference set. End to end: every ACK frame sent vs the packets really processed, ack deadlines, packet-number monotonicity on generated lossy runs.",
+   E2E_NOTE + " Promptness is judged only where the pacer cannot interfere (known finding) and after handshake confirmation.", "DESIGN.md section 4 C08"),
+ "C09": ("world", "property-based testing: RttEstimator/loss::detect/Pto vs RFC 9002 appendix A transcription (component) + loss/in-flight ledger over generated end-to-end runs",
+   "Component: op sequences against an integer transcription of RFC 9002. End to end: RFC 9002 6.1 re-evaluated at every declared loss, exact bytes-in-flight ledger at every recovery_metrics event, PTO spacing lower bound.",
+   E2E_NOTE + " Events are the code's own reports, cross-checked with wire frames; ledger only while one path exists.", "DESIGN.md section 4 C09"),
+ "C10": ("world", "model-based property testing of both congestion controllers (op sequences following the recovery manager's calling discipline) + cwnd monitor over generated end-to-end runs",
+   "Component: generated send/ack/loss/ECN/MTU/discard sequences on CUBIC and BBRv2 with per-step bounds, monotonicity and ledger checks. End to end: bytes in flight (own ledger) below the window at every congestion-controlled send, with the RFC allowances.",
+   E2E_NOTE + " BBRv2 only against the bounds the property states.", "DESIGN.md section 4 C10"),
+ "C12": ("world", "property-based testing of end-to-end scenarios with a consistency relation over everything an endpoint transmits",
+   "Generated scenarios with resets/stop_sending/finish/close under loss and MTU changes; relation over all sent frames per stream, stream ids returned by open(), and wire discipline after CONNECTION_CLOSE.",
+   E2E_NOTE, "DESIGN.md section 4 C12"),
+ "C14": ("comp", "property-based testing + exhaustive boundary enumeration of transport-parameter blocks against an acceptance table transcribed from RFC 9000 7.4/18.2",
+   "Blocks from an independent TLV encoder (all subsets/orders/duplicates/varint widths/boundary values, both roles) decoded by s2n and compared with the RFC table for acceptance and for every reported/applied value. Component level only: connection-ID authentication and live-connection behaviour are not covered here.",
+   "Trusted base: the RFC table in c14_params.rs (each row cites its sentence). End-to-end half (handshake outcome, CID parameters) not built.", "DESIGN.md section 4 C14"),
+ "C15": ("comp", "model-based property testing + exhaustive short sequences of two coupled KeySets with an instrumented key",
+   "Generated and enumerated interleavings of encrypt/decrypt/timeout/corrupt on two KeySet<K> with tiny AEAD limits against an explicit generation/counter model. Component level only (real connections with frequent updates not built).",
+   "Trusted base: the model in c15_keyset.rs and its reading of RFC 9001 section 6; real AEAD limits are replaced by small ones through the same limited::Key code.", "DESIGN.md section 4 C15"),
  "C16": ("comp", "model-based property testing (proptest op sequences + exhaustive short sequences vs reference models)",
    "Generated and exhaustively enumerated operation sequences on the real Reassembler / IntervalSet / ack::Ranges / packet-number Map / SlidingWindow, compared after every operation with plain reference models incl. full content; search with shrinking, no proof of absence.",
    "Trusted base: the reference models (interval list + cursors, BTreeSet, BTreeMap) in harness/crates/comp; debug assertions of the code are armed as extra oracles.",
-   "DESIGN.md §4 C16"),
+   "DESIGN.md section 4 C16"),
+ "C17": ("sched", "generated thread programs x randomised schedules (shuttle random + PCT schedulers) over the real sync/ sources, FIFO/exactly-once/no-lost-wake-up oracle",
+   "Reduced scope: interleavings under sequentially consistent atomics for bounded generated programs, sampled schedules; weak-memory reorderings are out of reach of this technique. socket ring on real threads; wakeup_queue.rs is private and not exercised.",
+   "Trusted base: shuttle's scheduler and the harness's shuttle-based primitive.rs (atomics, Arc, AtomicWaker) that replaces sync/primitive.rs; the other sync/ files are the repository's own sources (symlink mirror).", "DESIGN.md section 4 C17"),
 }
 
 NOT_APPLICABLE = {}
